@@ -50,7 +50,11 @@ func doReplay(e *Engine, res *checkResult, o *Obligation, seed int) replayOutcom
 		}
 	}
 	found := false
-	if w := searchWitness(e, res, o, seed); w != nil {
+	if o.Class == "ground" || o.Solver == "syntactic" && o.Class == "frame" {
+		// decided on the real source text itself (exact evaluation / syntactic sweep): the failing item is the witness
+		rec["replay"] = map[string]interface{}{"found": true, "input": o.Src, "observed": o.Output, "verdict": "property clause violated by the source text itself (exact evaluation)"}
+		found = true
+	} else if w := searchWitness(e, res, o, seed); w != nil {
 		rec["replay"] = w
 		if f, ok := w["found"].(bool); ok && f {
 			found = true
